@@ -414,6 +414,12 @@ def corpus() -> List[Dict[str, Any]]:
                        [('big/m%02d.py' % i, '"""module %d L{big.m00.f}"""\ndef f():\n    """f"""\n' % i) for i in range(51)] +
                        [('big/_p.py', '"""private one"""\n'), ('big/hid.py', '"""hidden one"""\nclass H:\n    """h"""\n')]),
          'roots': ['big'], 'args': ['--privacy=HIDDEN:big.hid', '--privacy=PRIVATE:big.m07']},
+        {'id': 'corpus-inherited-docstring-xref-hidden-namesake',
+         'files': {'m.py': '"""m"""\nclass Base:\n    """b"""\n    def target(self):\n        """t"""\n'
+                           '    def meth(self):\n        """See L{target}."""\n'
+                           'class Sub(Base):\n    """s"""\n    def target(self):\n        """hidden namesake"""\n'
+                           '    def meth(self):\n        pass\n'},
+         'roots': ['m.py'], 'args': ['--privacy=HIDDEN:m.Sub.target']},
         {'id': 'corpus-non-ascii',
          'files': {'m.py': '"""m doc L{Cl\u00e9}"""\nclass Cl\u00e9:\n    """c"""\n    def m\u00e9(self): "x"\ndef f\u00e9(): "y"\n'},
          'roots': ['m.py'], 'args': []},
